@@ -15,8 +15,8 @@ use vh::Args;
 
 struct World {
     ledger: DefaultLedgerSimulator,
-    pk: Secp256k1PublicKey,
-    accounts: [ComponentAddress; 3], // A (source, signs), B, C
+    pks: [Secp256k1PublicKey; 3],
+    accounts: [ComponentAddress; 3], // A (source), B, C - all three sign (plain deposits need the receiver's authority)
     res: [ResourceAddress; 3],       // F (fungible), N (non-fungible #1# #2# #3#), X = XRD
 }
 const ACC: [&str; 3] = ["A", "B", "C"];
@@ -26,7 +26,7 @@ fn world(b_rejects: bool) -> World {
     let mut ledger = LedgerSimulatorBuilder::new().build();
     let (pk, _, a) = ledger.new_allocated_account();
     let (pkb, _, b) = ledger.new_allocated_account();
-    let (_, _, c) = ledger.new_allocated_account();
+    let (pkc, _, c) = ledger.new_allocated_account();
     let f = ledger.create_fungible_resource(dec!(1000000), DIVISIBILITY_MAXIMUM, a);
     let n = ledger.create_non_fungible_resource(a);
     if b_rejects {
@@ -36,7 +36,7 @@ fn world(b_rejects: bool) -> World {
             .build();
         ledger.execute_manifest(m, vec![NonFungibleGlobalId::from_public_key(&pkb)]).expect_commit_success();
     }
-    World { ledger, pk, accounts: [a, b, c], res: [f, n, XRD] }
+    World { ledger, pks: [pk, pkb, pkc], accounts: [a, b, c], res: [f, n, XRD] }
 }
 
 fn q(d: Decimal) -> Option<i64> {
@@ -267,9 +267,9 @@ fn balances(w: &mut World) -> Vec<Vec<Decimal>> {
 fn execute(w: &mut World, manifest: TransactionManifestV2) -> Result<J, String> {
     let before = balances(w);
     let nonce = w.ledger.next_transaction_nonce();
-    let pk = w.pk;
+    let pks = w.pks;
     let receipt = catch(|| {
-        let tx = TestTransaction::new_v2_builder(nonce).finish_with_root_intent(manifest, [pk.signature_proof()]);
+        let tx = TestTransaction::new_v2_builder(nonce).finish_with_root_intent(manifest, pks.iter().map(|k| k.signature_proof()).collect::<Vec<_>>());
         w.ledger.execute_test_transaction(tx)
     })
     .map_err(|e| format!("panic:{}", e))?;
@@ -330,6 +330,64 @@ pub fn run(mode: &str, args: &Args) {
     }
 }
 
+/// deterministic product: every deposit method x every resource kind x known / unknown source, and the amount
+/// boundaries (take exactly what is there, one step less, nothing; all ids / some / none; empty worktop)
+fn scenarios() -> Vec<(String, Vec<J>)> {
+    let mut v: Vec<(String, Vec<J>)> = vec![];
+    let source = |r: usize| -> J { if r == 1 { json!({"op": "withdraw_nf", "ids": [1, 2]}) } else { json!({"op": "withdraw", "res": r, "amt": 2.0}) } };
+    let sink = |how: &str, acct: usize| -> Vec<J> {
+        match how {
+            "worktop" => vec![json!({"op": "deposit_worktop", "acct": acct})],
+            "batch" | "batch_refund" => vec![json!({"op": how, "acct": acct, "bs": ["b0"]})],
+            _ => vec![json!({"op": how, "acct": acct, "b": "b0"})],
+        }
+    };
+    let home = json!({"op": "deposit_worktop", "acct": 0});
+    for r in 0..3usize {
+        for how in ["deposit", "try_refund", "try_abort", "batch", "batch_refund", "worktop"] {
+            let mut st = vec![source(r)];
+            if how != "worktop" { st.push(json!({"op": "take_all", "res": r, "b": "b0"})); }
+            st.extend(sink(how, 1));
+            st.push(home.clone());
+            v.push((format!("sink:{}:{}", how, RES[r]), st));
+        }
+    }
+    // unknown source (faucet) into every deposit method
+    for how in ["deposit", "try_refund", "batch_refund", "worktop"] {
+        let mut st = vec![json!({"op": "free"})];
+        if how != "worktop" { st.push(json!({"op": "take_all", "res": 2, "b": "b0"})); }
+        st.extend(sink(how, 2));
+        st.push(home.clone());
+        v.push((format!("unknown-source:{}", how), st));
+    }
+    // amount boundaries of TAKE_FROM_WORKTOP against what was withdrawn (2.0): equal, one step less, more (fails), then deposit
+    for (name, amt) in [("take-equal", 2.0), ("take-less", 1.5), ("take-more", 3.0), ("take-half", 0.5)] {
+        for r in [0usize, 2] {
+            v.push((format!("{}:{}", name, RES[r]), vec![source(r), json!({"op": "take", "res": r, "amt": amt, "b": "b0"}), json!({"op": "deposit", "acct": 1, "b": "b0"}), home.clone()]));
+            v.push((format!("{}:refund:{}", name, RES[r]), vec![source(r), json!({"op": "take", "res": r, "amt": amt, "b": "b0"}), json!({"op": "try_refund", "acct": 1, "b": "b0"}), home.clone()]));
+        }
+    }
+    // id boundaries: all / some / none of the withdrawn ids, an id that is not there
+    for (name, ids) in [("ids-all", vec![1, 2]), ("ids-some", vec![2]), ("ids-none", vec![]), ("ids-missing", vec![3])] {
+        v.push((name.to_string(), vec![source(1), json!({"op": "take_nf", "ids": ids, "b": "b0"}), json!({"op": "deposit", "acct": 2, "b": "b0"}), home.clone()]));
+    }
+    // empty worktop / empty bucket / zero withdrawals
+    v.push(("empty:take-all-deposit".into(), vec![json!({"op": "take_all", "res": 0, "b": "b0"}), json!({"op": "deposit", "acct": 1, "b": "b0"}), home.clone()]));
+    v.push(("empty:worktop-deposit".into(), vec![json!({"op": "deposit_worktop", "acct": 1}), home.clone()]));
+    v.push(("empty:withdraw-no-ids".into(), vec![json!({"op": "withdraw_nf", "ids": []}), json!({"op": "deposit_worktop", "acct": 2}), home.clone()]));
+    // assertions at the boundary, then a deposit whose bounds they tighten
+    for (name, a) in [("assert-equal", 2.0), ("assert-less", 1.5), ("assert-more", 3.0)] {
+        v.push((format!("{}:contains", name), vec![source(0), json!({"op": "assert_contains", "res": 0, "amt": a}), json!({"op": "deposit_worktop", "acct": 1}), home.clone()]));
+        v.push((format!("{}:include", name), vec![json!({"op": "free"}), json!({"op": "assert_include", "res": 2, "amt": a}), json!({"op": "deposit_worktop", "acct": 2}), home.clone()]));
+        v.push((format!("{}:bucket", name), vec![source(0), json!({"op": "take_all", "res": 0, "b": "b0"}), json!({"op": "assert_bucket", "b": "b0", "amt": a}), json!({"op": "deposit", "acct": 1, "b": "b0"}), home.clone()]));
+    }
+    v.push(("assert-only".into(), vec![source(0), source(2), json!({"op": "assert_only_all", "res": 0, "amt": 0.5}), json!({"op": "deposit_worktop", "acct": 1}), home.clone()]));
+    // take, return, take again; two buckets into one batch
+    v.push(("return-retake".into(), vec![source(0), json!({"op": "take", "res": 0, "amt": 1.5, "b": "b0"}), json!({"op": "return", "b": "b0"}), json!({"op": "take_all", "res": 0, "b": "b1"}), json!({"op": "deposit", "acct": 1, "b": "b1"}), home.clone()]));
+    v.push(("batch-two".into(), vec![source(0), source(2), json!({"op": "take_all", "res": 0, "b": "b0"}), json!({"op": "take", "res": 2, "amt": 0.5, "b": "b1"}), json!({"op": "batch", "acct": 2, "bs": ["b0", "b1"]}), home.clone()]));
+    v
+}
+
 fn record(args: &Args) {
     let seed = args.u64("seed", 1);
     let n = args.u64("n", 200);
@@ -337,11 +395,16 @@ fn record(args: &Args) {
     let mut out = Out::new();
     let mut worlds = [world(false), world(true)];
     let mut stats: std::collections::BTreeMap<String, usize> = Default::default();
-    for k in 0..n {
-        if k > 0 && k % 40 == 0 {
+    let scen = scenarios();
+    let nscen = scen.len() as u64;
+    for k in 0..(nscen + n) {
+        let is_scenario = k < nscen;
+        let uses_nf = is_scenario && scen[k as usize].1.iter().any(|s| s["op"] == "withdraw_nf");
+        if (k > nscen && (k - nscen) % 40 == 0) || uses_nf || k == nscen {
             worlds = [world(false), world(true)]; // fresh balances (the non-fungibles wander off)
         }
-        let steps = gen_steps(&mut rng);
+        let steps = if is_scenario { scen[k as usize].1.clone() } else { gen_steps(&mut rng) };
+        let scenario_name = if is_scenario { scen[k as usize].0.clone() } else { String::new() };
         let manifest = match catch(|| build(&worlds[0], &steps)) {
             Ok(m) => m,
             Err(_) => { *stats.entry("builder-refused".into()).or_insert(0) += 1; continue; }
@@ -349,7 +412,7 @@ fn record(args: &Args) {
         let pred = analyse(&worlds[0], &manifest);
         *stats.entry(format!("analysis:{}", pred["status"].as_str().unwrap())).or_insert(0) += 1;
         if pred["status"] != "ok" {
-            out.emit(&json!({"k": "noprediction", "steps": steps, "pred": pred}));
+            out.emit(&json!({"k": "noprediction", "scenario": scenario_name, "steps": steps, "pred": pred}));
             continue;
         }
         for (si, w) in worlds.iter_mut().enumerate() {
@@ -358,10 +421,13 @@ fn record(args: &Args) {
             match execute(w, manifest) {
                 Ok(act) => {
                     *stats.entry("run:success".into()).or_insert(0) += 1;
-                    out.emit(&json!({"k": "run", "state": si, "steps": steps, "pred": pred, "act": act}));
+                    out.emit(&json!({"k": "run", "scenario": scenario_name, "state": si, "steps": steps, "pred": pred, "act": act}));
                 }
                 Err(e) => {
                     *stats.entry(format!("run:{}", e.split(':').next().unwrap())).or_insert(0) += 1;
+                    if is_scenario {
+                        out.emit(&json!({"k": "failed", "scenario": scenario_name, "state": si, "why": e}));
+                    }
                 }
             }
         }
